@@ -31,7 +31,7 @@ COMPONENTS = {
     "stub_or_harness": ["history generator", "WriterModel reference model"],
 }
 PROBES = [
-    "same_string_in_both_modes", "argument_of_a_subclass_type", "packet_into_sanitising_writer", "caller_mode_on_around_generated_code", "generated_enum_width_overrides", "generated_serializer_after_chunked", "generated_plain_struct_in_both_modes", "second_writer_interleaved", "refusal_on_nonempty_buffer", "refusal_right_after_mode_toggle", "perfect_fit_padded",
+    "same_string_in_both_modes", "argument_of_a_subclass_type", "bytearray_handed_to_add_bytes", "packet_into_sanitising_writer", "caller_mode_on_around_generated_code", "generated_enum_width_overrides", "generated_serializer_after_chunked", "generated_plain_struct_in_both_modes", "second_writer_interleaved", "refusal_on_nonempty_buffer", "refusal_right_after_mode_toggle", "perfect_fit_padded",
     "y_diaeresis_sanitized", "y_diaeresis_unsanitized", "to_bytearray_is_copy", "refusal_far_beyond_limit",
     "refusal_string_one_too_long", "refusal_string_one_too_short",
 ]
@@ -287,8 +287,13 @@ def execute(plan, env):
             tr.ev(step, name, len(m.data))
             continue
         call_args = list(args)
+        handed_over = None
         if name == "add_bytes":
             call_args = [bytes(args[0])]
+            if step % 3 == 1:
+                # bytes-like and mutable (e.g. another writer's to_bytearray()): the caller keeps using its array
+                handed_over = bytearray(args[0])
+                call_args = [handed_over]
         before = bytes(w.to_bytearray())
         try:
             expect = m.image(name, call_args)
@@ -329,6 +334,19 @@ def execute(plan, env):
         except Exception as e:
             exc = type(e).__name__
         after = bytes(w.to_bytearray())
+        if handed_over is not None and exc is None:
+            res.count("probe.bytearray_handed_to_add_bytes")
+            keep = bytes(handed_over)
+            w.add_byte(0x41)                      # the writer goes on ...
+            if bytes(handed_over) != keep:
+                fail("aliasing", name, "a later write changed the bytearray that had been handed to add_bytes", step)
+                break
+            handed_over += b"\x00\x01"           # ... and so does the caller, with its own array
+            if handed_over:
+                handed_over[0] ^= 0x55
+            if bytes(w.to_bytearray()) != after + b"\x41":
+                fail("aliasing", name, "changing the bytearray that had been handed to add_bytes changed the writer", step)
+                break
         tr.ev(step, name, repr(args), exc, after[len(before):].hex())
         if expect is None:
             res.count("fault.refused_write")
@@ -367,6 +385,8 @@ def execute(plan, env):
                      f"format prescribes {expect.hex()}", step)
                 break
             m.data += expect
+            if handed_over is not None:
+                m.data += b"\x41"            # the extra byte written while the hand-over was observed
         if len(w) != len(m.data):
             fail("len", name, f"len(writer)={len(w)} model {len(m.data)}", step)
             break
